@@ -359,12 +359,22 @@ def main():
     known = [k for k in load_known() if k.get("property") == prop and k.get("status") == "known"]
     known_hit = {}
     spec_fail, diverge, crashes = [], [], []
+    other_tags = {}
     for c in cases:
         for i, (h, m, s) in enumerate(zip(c.h, c.m, c.s)):
             if h == "skipped":
                 continue
             is_crash = h.startswith("crash:")
-            agrees = (h == m) or (is_crash and m.startswith("fault") and getattr(mod, "fault_agrees", lambda a, b: False)(h, m))
+            proj = getattr(mod, "project", None)
+            if proj and not is_crash:
+                opn = c.lines[i].split(" ", 1)[0]
+                agrees = proj(opn, h) == proj(opn, m)
+            else:
+                agrees = (h == m) or (is_crash and m.startswith("fault") and getattr(mod, "fault_agrees", lambda a, b: False)(h, m))
+            relevant = getattr(mod, "relevant_verdict", None)
+            if s != "ok" and not is_crash and relevant and not relevant(s):
+                other_tags[s] = other_tags.get(s, 0) + 1
+                s = "ok"
             if s != "ok" or is_crash:
                 kid = None
                 for k in known:
@@ -410,6 +420,8 @@ def main():
         path = write_replay(prop, payload)
         lines_out.append(f"VIOLATION property={prop} replay={path} no-failing-input-found")
         violations = max(1, len(diverge))
+    if other_tags:
+        notes.append("spec verdicts belonging to other properties seen in this run (reported by their own checks): " + json.dumps(other_tags))
     if untied:
         notes.append("untied facts (anchor not located): " + ",".join(untied))
 
